@@ -118,7 +118,7 @@ def gen_case(seed):
         'viewer': r.chance(70), 'quiet': r.chance(25), 'explicit': r.chance(50),
         'two_actors': r.chance(30), 'moveupdate': r.chance(40),
         'tokens': r.chance(35), 'stepviewer': r.chance(40), 'extreme': r.chance(20),
-        'replace': r.chance(8),
+        'replace': r.chance(8), 'inplace': r.chance(8),
     }
     names = ['n'] + r.sample([v for v in VAR_MENU if v not in ('n', 't')], r.rint(1, 5))
     if swarm['steps']:
@@ -239,6 +239,15 @@ def gen_case(seed):
               'ops': [['noop']] * k_ + [['gen_named', key, r.pick(['cellA', 'cellB']), _state_for(r, cellvars)]]
               + [['noop']] * 3}
         actors = [a0, a1]
+    if swarm['inplace'] and not swarm['replace'] and init_cells['agents']:
+        # a _generate under the key of an existing cell: the cell's process is replaced in place
+        key, tname_, _ = init_cells['agents'][0]
+        if not templates[tname_].get('nest'):
+            k_ = r.rint(0, 3)
+            actors[0]['ops'] = list(actors[0]['ops'][:k_]) + [['gen_named', key, tname_, _state_for(r, cellvars, 30)]] \
+                + list(actors[0]['ops'][k_:])
+            actors[0]['kind'] = 'proc'
+            actors[0].pop('flow', None)
     viewers = []
     if swarm['viewer']:
         for i in range(r.rint(1, 2)):
@@ -452,6 +461,10 @@ def _restart(run, eng, case):
 # reference hierarchy
 # ---------------------------------------------------------------------------
 
+class Inconclusive(Exception):
+    """The history left the domain the properties speak about."""
+
+
 class Pending:
     """A daughter's share of a divided variable: decided by a (possibly
     random) divider, checked against its law at the next snapshot."""
@@ -509,6 +522,7 @@ class HModel:
         self.groups = []      # unresolved division groups
         self.known_hits = {}
         self.moved, self.created, self.deleted, self.divided, self.tuple_deletes = [], [], [], [], []
+        self.replaced = []
         self.tokens = copy.deepcopy(case.get('tokens')) if case.get('tokens') is not None else None
         for s in STORES:
             for key, tname, state in case['init_cells'].get(s, []):
@@ -591,6 +605,10 @@ class HModel:
                 dst = mv['target'][0] if isinstance(mv['target'], (list, tuple)) else mv['target']
                 if key not in here:
                     continue
+                if key in self.stores[dst]:
+                    # moving a cell onto a key that exists in the target: the statement does
+                    # not say what the result is; the run is not judged beyond this point
+                    raise Inconclusive('move onto an existing key')
                 cell = here[key]
                 if 'update' in mv:
                     for var, val in (mv['update'].get('vars') or {}).items():
@@ -603,9 +621,20 @@ class HModel:
             for g in u.get('_generate', []) or []:
                 key = g['key']
                 tname = self.template_of(g)
-                here[key] = self.new_cell(tname, (g.get('initial_state') or {}).get('vars'))
+                if key in here:
+                    # generated into an existing compartment: the given processes replace the
+                    # ones of the same name, the given state overrides, the rest stays
+                    cell = here[key]
+                    for kk, vv in ((g.get('initial_state') or {}).get('vars') or {}).items():
+                        if kk in cell.vars:
+                            cell.vars[kk] = _dec(vv)
+                    cell.parties.update(parties_of(self.case['templates'][tname]))
+                    cell.template = cell.template or tname
+                    self.replaced.append((store, key))
+                else:
+                    here[key] = self.new_cell(tname, (g.get('initial_state') or {}).get('vars'))
+                    self.created.append((store, key))
                 footprint.add((store, key))
-                self.created.append((store, key))
             dv = u.get('_divide')
             if dv:
                 mkey = dv['mother']
@@ -887,6 +916,14 @@ def _cells_of(snap):
 
 def check(case, run, stats=None):
     stats = stats if stats is not None else {}
+    try:
+        return _check(case, run, stats)
+    except Inconclusive:
+        stats.setdefault('probes', {})['left-the-domain'] = 1
+        return []
+
+
+def _check(case, run, stats):
     probes = stats.setdefault('probes', {})
 
     def probe(name, n=1):
@@ -1017,13 +1054,13 @@ def check(case, run, stats=None):
         cell = m.find(path) if path else None
         if cell is None:
             return None
-        tmpl = case['templates'][cell.template] if cell.template else {}
-        for sp in tmpl.get('procs', []):
-            if sp['name'] == name:
-                return {'vars': {v: cell.vars[v] for v in sp['declares']}}
-        for sp in tmpl.get('steps', []):
-            if sp['name'] == name:
-                return {'vars': {v: cell.vars[v] for v in ('n', sp['out'])}}
+        for tmpl in case['templates'].values():
+            for sp in tmpl.get('procs', []):
+                if sp['name'] == name:
+                    return {'vars': {v: cell.vars[v] for v in sp['declares']}}
+            for sp in tmpl.get('steps', []):
+                if sp['name'] == name:
+                    return {'vars': {v: cell.vars[v] for v in ('n', sp['out'])}}
         return None
 
     stats['known_hits'] = m.known_hits
@@ -1031,6 +1068,7 @@ def check(case, run, stats=None):
     sched = {}              # uid -> {'last_end', 'poll', 'quiet', 'pending', 'path', 'first'}
     ops_info = {}
     created_at = {}         # cell path (store, key) -> creation time
+    replaced_at = {}        # cell path -> time of the last in-place generate
     restarted = False
 
     def live_steps():
@@ -1085,6 +1123,9 @@ def check(case, run, stats=None):
                 # first poll of this instance: it enters the simulation now
                 cpath = tuple((ev.get('path') or ())[:2])
                 want_T = created_at.get(cpath, None)
+                if cpath in replaced_at:
+                    # a process that replaced another one in place enters the simulation then
+                    want_T = replaced_at[cpath]
                 if want_T is not None and ev['T'] != want_T and not restarted:
                     return [V('C10', 'C10.start-time', 'plain',
                               '%s was created at %r but first asked for a timestep at %r' % (
@@ -1149,6 +1190,7 @@ def check(case, run, stats=None):
             if name in actor_names:
                 n_created = len(m.created)
                 n_moved = len(m.moved)
+                n_replaced = len(m.replaced)
                 fp_before = set(footprint)
                 res = m.apply_actor_update(update, footprint)
                 batch['struct'] |= (set(footprint) - fp_before) | set(
@@ -1170,6 +1212,9 @@ def check(case, run, stats=None):
                         faults['op' + kk_] = faults.get('op' + kk_, 0) + 1
                 for cpath in m.created[n_created:]:
                     created_at[cpath] = ev['T']
+                    replaced_at.pop(cpath, None)
+                for cpath in m.replaced[n_replaced:]:
+                    replaced_at[cpath] = ev['T']
                 for (src, dst) in m.moved[n_moved:]:
                     # a moved process starts afresh at its new path
                     created_at[dst] = ev['T']
@@ -1256,6 +1301,9 @@ def check(case, run, stats=None):
                     return [V('C10', 'C10.command-pending', 'after-' + last_struct,
                               'the engine sent a command to a process that still has one pending '
                               '(last structural operation: %s): %s' % (last_struct, run.exc[2][-700:]), seq)]
+                if ev['op'] == -1 and not restarted:
+                    return [V('C15', 'engine-exception', disc,
+                              'construction raised %s: %s' % (ev['exc'], (run.exc[2] if run.exc else '')[-700:]), seq)]
                 if 'overlapping steps' in (run.exc[2] if run.exc else ''):
                     return [V('C10', 'C10.step-registered-twice', 'after-' + last_struct,
                               'a step was registered a second time (last structural operation: %s): %s' % (
